@@ -460,7 +460,7 @@ def native_replay(prop, h, cfg, vals, work, timeout=120):
     cmd = ["gcc", "-g", "-O0", "-fsanitize=address,undefined", "-fno-sanitize-recover=undefined",
            "-w", "-o", exe] + srcs + \
           ["-include", os.path.join(COMMON, "vf.h"), "-DHAVE_CONFIG_H", "-DE2FSPROGS_VERIF",
-           "-DVF_REPLAY", "-I" + d] + include_flags(prop, h) + ["-D" + x for x in q.defines()]
+           "-DVF_REPLAY", "-D_GNU_SOURCE", "-I" + d] + include_flags(prop, h) + ["-D" + x for x in q.defines()]
     for f in h.get("remove_bodies", []):
         # natively the cut callee is replaced by the stub through a rename of the real one
         cmd.append("-D%s=vf_cut_%s" % (f, f))
